@@ -8,358 +8,15 @@
 package main
 
 import (
-	"fmt"
-	"math/rand"
-	"strings"
-	"sync"
-
-	"verifh/bridge"
-	"verifh/corpus"
 	"verifh/ev"
-	"verifh/gen/all"
-	"verifh/model"
-	"verifh/rig"
+	"verifh/props/c02/gen1"
+	"verifh/props/c02/gen2"
 )
-
-type config struct {
-	mounting  string
-	threshold int
-	strict    bool
-}
-
-func firstString(v *model.Value) (string, bool) {
-	if v == nil {
-		return "", false
-	}
-	switch v.Kind {
-	case model.KString, model.KBytes:
-		return v.S, true
-	case model.KRecord:
-		for _, k := range []string{"a", "p"} {
-			if s, ok := firstString(v.Fields[k]); ok {
-				return s, true
-			}
-		}
-		if p := v.Fields["$params"]; p != nil {
-			return firstString(p)
-		}
-	}
-	return "", false
-}
-
-// keyFeature names the most hostile character class among the call's keys (for signatures).
-func keyFeature(c *rig.Call) string {
-	worst := "plain"
-	rank := func(cl string) int {
-		switch {
-		case cl == "alnum" || cl == "plain":
-			return 0
-		case cl == "text" || cl == "long-text":
-			return 1
-		}
-		return 2
-	}
-	consider := func(v *model.Value) {
-		if s, ok := firstString(v); ok {
-			cl := model.CharClass(s)
-			if len([]rune(s)) > 1 {
-				// name the reserved character it contains, if any
-				for _, r := range "%()',:/?#;&=+. " {
-					if strings.ContainsRune(s, r) {
-						cl = "contains-" + string(r)
-						break
-					}
-				}
-			}
-			if rank(cl) > rank(worst) {
-				worst = cl
-			}
-		}
-	}
-	for _, k := range c.ParentKeys {
-		consider(k)
-	}
-	consider(c.Key)
-	for _, k := range c.Keys {
-		consider(k)
-	}
-	for _, k := range c.KeyOf {
-		consider(k)
-	}
-	return worst
-}
-
-func part(detail string) string {
-	for _, p := range []string{"parentKey", "key", "batch keys", "entity map", "entities", "entity", "patch map", "patch", "params", "method", "elements", "paging", "metadata", "actionResult", "createdId", "create status", "created", "batch results", "results", "batch statuses", "batch errors", "errors", "batch response entry", "caller got an error"} {
-		if strings.HasPrefix(detail, p) {
-			return strings.ReplaceAll(p, " ", "-")
-		}
-	}
-	return "other"
-}
 
 func main() {
 	run := ev.Start("C02")
-	run.Rule("case = (resource of the kitchen-sink set, method, arguments drawn with hostile keys / parameters, scripted outcome, client configuration {tunnelling threshold 0 / 1 / large, strict / lenient}, server mounting {bare, ServeMux, path prefix, prefix+ServeMux}); " +
-		"each call goes through the generated client, real HTTP over loopback and the generated RegisterResource adapters; the per-request-id history must be exactly one wire exchange, exactly one invocation with equal arguments (read-only / create-only fields pruned as the protocol prescribes) and a client result equal to the scripted outcome. " +
-		"distinct = distinct (resource, method, mounting, threshold, key content class)")
-	run.Assume("reflection bridge + generic rig (MockResource functions are reflect.MakeFunc closures)", "control characters in keys are outside the statement's list (reserved URL and ROR2 characters, percent signs, empty strings, non-ASCII)", "v2 generation only")
-	set := all.Sets[0]
-	if set.Name != "ks" || len(set.Schema.Resources) == 0 {
-		run.Inconclusive("kitchen-sink resources missing")
-		run.Finish()
-	}
-	if err := set.SelfCheck(model.NewGen(set.Schema, rand.New(rand.NewSource(run.Seed+7))), 5); err != nil {
-		run.Inconclusive("bridge self-check failed: " + err.Error())
-		run.Finish()
-	}
-	perMethod := run.Pick(15, 150)
-	var configs []config
-	for _, m := range []string{"bare", "mux", "prefixed", "prefixed-mux"} {
-		for _, th := range []int{0, 1, 1 << 20} {
-			for _, strict := range []bool{false, true} {
-				if !run.Thorough() && m != "bare" && (th == 1<<20 || strict) {
-					continue
-				}
-				configs = append(configs, config{m, th, strict})
-			}
-		}
-	}
-	var wg sync.WaitGroup
-	ch := make(chan config)
-	var smu sync.Mutex
-	nsamples := 0
-	for w := 0; w < 8; w++ {
-		wg.Add(1)
-		go func(w int) {
-			defer wg.Done()
-			for cfg := range ch {
-				runConfig(run, set, cfg, perMethod, rand.New(rand.NewSource(run.Seed*131+int64(len(cfg.mounting))*7+int64(cfg.threshold%97)+map[bool]int64{true: 1, false: 0}[cfg.strict])), &smu, &nsamples)
-			}
-		}(w)
-	}
-	for _, c := range configs {
-		ch <- c
-	}
-	close(ch)
-	wg.Wait()
-	run.Set("configurations", len(configs))
-	run.Set("generations", []string{"v2"})
-	run.Require("calls", 500)
-	run.Require("delivered_exactly_once", 400)
+	gen2.Run(run)
+	gen1.Run(run)
+	run.Set("generations", []string{"v2", "root"})
 	run.Finish()
-}
-
-func runConfig(run *ev.Run, set *bridge.Set, cfg config, perMethod int, rng *rand.Rand, smu *sync.Mutex, nsamples *int) {
-	srv, err := rig.NewServer(set, cfg.mounting, nil)
-	if err != nil {
-		run.Inconclusive("cannot start server: " + err.Error())
-		return
-	}
-	defer srv.Close()
-	cl := rig.NewClient(set, "http://"+srv.Addr+srv.Prefix, cfg.threshold, cfg.strict)
-	var mu sync.Mutex
-	scripted := map[string]*rig.Outcome{}
-	srv.SetScript(func(obs *rig.Observation) *rig.Outcome {
-		mu.Lock()
-		defer mu.Unlock()
-		return scripted[obs.Call.ReqID]
-	})
-	g := model.NewGen(set.Schema, rng)
-	g.Hostile = 0.5
-	g.MaxDepth = 3
-	g.MaxElems = 3
-	n := 0
-	// a fixed list of reserved-character keys is part of every configuration's case list
-	fixedKeys := []string{"/", ".", "..", "a/b", "//", "%", "(", ")", "'", ",", ":", "100%", "%25", "%2F", "", "é", "日本", "a b", "+", "&", "=", "?", "#", ";", "''", "(a:b)", "List(x)", "a,b", "urn:li:x:(1,2)"}
-	for _, res := range set.Schema.Resources {
-		ep := srv.Endpoints[res.Namespace]
-		for mi := range res.Methods {
-			m := &res.Methods[mi]
-			nFixed := 0
-			if (res.Namespace == "ks.things" || res.Namespace == "ks.things.parts") && (m.Name == "get" || m.Name == "update" || m.Name == "byS" || m.Name == "touch") {
-				nFixed = len(fixedKeys)
-			}
-			for i := 0; i < perMethod+nFixed; i++ {
-				n++
-				id := fmt.Sprintf("%s-%d-%v-%d", cfg.mounting, cfg.threshold, cfg.strict, n)
-				call := ep.GenCall(m, g, rng)
-				if i >= perMethod {
-					k := model.String(fixedKeys[i-perMethod])
-					if len(call.ParentKeys) > 0 {
-						call.ParentKeys[0] = k
-					} else if call.Key != nil {
-						call.Key = k
-					}
-					call.Shown = call.Show()
-				}
-				if hasControl(call) {
-					run.Count("observed_only.control_characters_in_keys", 1)
-					continue
-				}
-				out := ep.GenOutcome(m, call, g, rng)
-				if outcomeHasControlID(out) {
-					run.Count("observed_only.control_characters_in_keys", 1)
-					out.Release()
-					continue
-				}
-				mu.Lock()
-				scripted[id] = out
-				mu.Unlock()
-				run.Eval(1)
-				run.Count("calls", 1)
-				got, wire, err := cl.Invoke(res, m, call, id)
-				obs := srv.Take(id)
-				errlog := srv.TakeErrLog()
-				mu.Lock()
-				delete(scripted, id)
-				mu.Unlock()
-				desc := map[string]any{"generation": "v2", "mounting": cfg.mounting, "threshold": cfg.threshold, "strict": cfg.strict, "call": call.Show(), "scripted": out.Show()}
-				if len(wire) > 0 {
-					desc["wire"] = map[string]any{"method": wire[0].Method, "target": trunc(wire[0].Target), "status": wire[0].Status, "request_body": trunc(wire[0].Body), "response_body": trunc(wire[0].RespBody), "id_header": wire[0].RespHeader.Get("X-RestLi-Id")}
-				}
-				sigBase := fmt.Sprintf("v2/%s/%s", mountClass(cfg.mounting), methodClass(m))
-				feat := keyFeature(call)
-				if err != nil {
-					run.Inconclusive("rig: " + err.Error())
-					out.Release()
-					continue
-				}
-				desc["received"] = got.Show()
-				switch {
-				case got.Err != nil && got.Err.Kind == "PANIC-IN-CALLER":
-					run.Violation(sigBase+"/panic-in-caller/"+feat, desc)
-				case len(wire) == 1 && wire[0].Status == 301 && strings.HasSuffix(cfg.mounting, "mux"):
-					// http.ServeMux cleans the decoded path and redirects before the handler runs
-					run.Violation("v2/"+cfg.mounting+"/servemux-path-cleaning-redirect", desc)
-				case len(wire) != 1:
-					desc["exchanges"] = len(wire)
-					run.Violation(fmt.Sprintf("%s/wire-exchanges-%d/%s", sigBase, len(wire), feat), desc)
-				case len(obs) == 0:
-					run.Violation(sigBase+"/not-delivered/"+feat, desc)
-				case len(obs) > 1:
-					run.Violation(sigBase+"/delivered-more-than-once/"+feat, desc)
-				default:
-					run.Count("delivered_exactly_once", 1)
-					if d := ep.CompareCalls(m, call, obs[0].Call); d != "" {
-						desc["detail"], desc["resource_code_saw"] = d, obs[0].Call.Show()
-						run.Violation(sigBase+"/arguments-differ/"+part(d)+"/"+feat, desc)
-					} else if d := ep.CompareOutcomes(m, out, got); d != "" {
-						desc["detail"] = d
-						run.Violation(sigBase+"/result-differs/"+part(d)+"/"+feat, desc)
-					} else if strings.Contains(errlog, "panic") {
-						desc["server_log"] = trunc(errlog)
-						run.Violation(sigBase+"/server-panic-logged/"+feat, desc)
-					} else {
-						run.Distinct(fmt.Sprintf("%s|%s|%s|%d|%s", res.Namespace, m.Name, cfg.mounting, cfg.threshold, feat))
-						smu.Lock()
-						if *nsamples < 8 && feat != "plain" && feat != "alnum" {
-							*nsamples++
-							run.Sample(desc)
-						}
-						smu.Unlock()
-					}
-				}
-				out.Release()
-			}
-		}
-	}
-}
-
-func mountClass(m string) string { return m }
-
-func methodClass(m *corpus.MethodSpec) string {
-	switch m.Kind {
-	case "FINDER":
-		return "finder"
-	case "ACTION":
-		if m.OnEntity {
-			return "entity-action"
-		}
-		return "action"
-	}
-	return m.Name
-}
-
-func hasControl(c *rig.Call) bool {
-	bad := false
-	var walk func(v *model.Value)
-	walk = func(v *model.Value) {
-		if v == nil {
-			return
-		}
-		switch v.Kind {
-		case model.KString, model.KBytes, model.KFixed:
-			for _, r := range v.S {
-				if r < 0x20 || r == 0x7f {
-					bad = true
-				}
-			}
-		case model.KRecord:
-			for _, f := range v.Fields {
-				walk(f)
-			}
-		}
-	}
-	check := walk
-	for _, k := range c.ParentKeys {
-		check(k)
-	}
-	check(c.Key)
-	for _, k := range c.Keys {
-		check(k)
-	}
-	for _, k := range c.KeyOf {
-		check(k)
-	}
-	return bad
-}
-
-// unfitForHeader: control characters anywhere, or leading / trailing white space (HTTP trims header values).
-func unfitForHeader(v *model.Value) bool {
-	bad := false
-	var walk func(v *model.Value)
-	walk = func(v *model.Value) {
-		if v == nil {
-			return
-		}
-		switch v.Kind {
-		case model.KString, model.KBytes, model.KFixed:
-			for _, r := range v.S {
-				if r < 0x20 || r == 0x7f {
-					bad = true
-				}
-			}
-			if v.S != strings.TrimSpace(v.S) {
-				bad = true
-			}
-		case model.KRecord:
-			for _, f := range v.Fields {
-				walk(f)
-			}
-		}
-	}
-	walk(v)
-	return bad
-}
-
-func outcomeHasControlID(o *rig.Outcome) bool {
-	bad := false
-	check := func(v *model.Value) {
-		if unfitForHeader(v) {
-			bad = true
-		}
-	}
-	check(o.CreatedID)
-	for _, c := range o.Created {
-		check(c.ID)
-	}
-	return bad
-}
-
-func trunc(s string) string {
-	if len(s) > 300 {
-		return s[:300] + "..."
-	}
-	return s
 }
